@@ -3,6 +3,7 @@ use serde_json::Value;
 
 pub mod c01;
 pub mod c02;
+pub mod c03;
 pub mod c06;
 pub mod c09;
 
@@ -15,6 +16,7 @@ pub struct Entry {
 pub static REGISTRY: &[Entry] = &[
     Entry { id: "C01", run: c01::run_check, replay: c01::replay },
     Entry { id: "C02", run: c02::run_check, replay: c02::replay },
+    Entry { id: "C03", run: c03::run_check, replay: c03::replay },
     Entry { id: "C06", run: c06::run_check, replay: c06::replay },
     Entry { id: "C09", run: c09::run_check, replay: c09::replay },
 ];
